@@ -249,6 +249,9 @@ def check_saved(ctx, A, now, tag, replay, hash_opt=(), clamp=False, before=None)
         if d2 != data:
             with ctx.lock:
                 ctx.stats['backward_clock_rewrite_changes_bytes'] += 1
+                if getattr(ctx, 'finding_example', None) is None:
+                    ctx.finding_example = dict(rep, first_rewrite_hex=data.hex(), second_rewrite_hex=(d2 or b'').hex(), clock=now,
+                                               first_difference_at_byte=first_diff(d2 or b'', data))
         rc, out = A.run(list(hash_opt) + ['test-rewrite'], now=now)
         d3 = A.content(0)
         if rc != 0 or d3 != d2:
@@ -475,6 +478,8 @@ def gen_case(ctx, idx, seed, root, big, state_override=None, now_override=None):
         if d2 != data:
             with ctx.lock:
                 ctx.stats['backward_clock_rewrite_changes_bytes'] += 1
+                if getattr(ctx, 'finding_example_b', None) is None:
+                    ctx.finding_example_b = dict(rep, second_rewrite_hex=d2.hex(), clock=now, first_difference_at_byte=first_diff(d2, data))
         rc, out = A.run(['test-rewrite'], now=now)
         d3 = A.content(0)
         with ctx.lock:
@@ -888,6 +893,13 @@ def main(tier, replay=None):
                        '--test-skip-device: disk and parity UUIDs are empty, so state_map does not rewrite UUIDs between load and save']
     if regen_msgs:
         chk.notes.append('translator: ' + '; '.join(regen_msgs))
+    fe = getattr(ctx, 'finding_example', None) or getattr(ctx, 'finding_example_b', None)
+    if fe is not None:
+        chk.violation('F-C10a', 'rewriting a content file saved with the clock (%s) behind one of its info times does not reproduce it byte for byte: the two '
+                      'files differ at byte %s (info record); decoded states equal, the next rewrite is a fixpoint, the model predicts both files '
+                      '(C10_rewrite_reproduces_refuted); seen %d times in this run' % (fe.get('clock'), fe.get('first_difference_at_byte'),
+                                                                                     st['backward_clock_rewrite_changes_bytes']),
+                      fe, finding_key='F-C10a-rewrite-not-identical-clock-behind')
     if st['backward_clock_rewrite_changes_bytes']:
         chk.notes.append('FINDING (C10_rewrite_reproduces_refuted) replayed on the binary %d times: a content file saved with the clock behind one of '
                          'its info times is not reproduced byte for byte by test-rewrite at the same clock (the model predicts the new bytes; '
